@@ -1497,6 +1497,11 @@ class Interp:
             return base
         if len(idx) >= 2 and isinstance(idx[0], tuple) and idx[0][0] == "slice" and idx[0][1] is None and idx[0][2] is None:
             return base
+        # np.arange(n)[idx] IS idx: the ramp 0..n-1 indexed by a list of positions gives those positions, in the order of the list
+        if len(idx) == 1 and isinstance(idx[0], (RefL, Sq)) and isinstance(base, Sq):
+            tb = normalise(base.t)
+            if tb[0] == "for" and tb[2] == P.c(0) and tb[4] == ("int", P.s(tb[1])):
+                return idx[0]
         if isinstance(idx[0], Msk) or isinstance(idx[0], RefL) or isinstance(idx[0], Sq):
             return Sq(("opq", "selection from an already selected block"))
         return Sq(("opq", f"subscript of a computed sequence"))
